@@ -92,12 +92,26 @@ class RFn(Fn):
         return None
 
     def is_str(self, e):
+        """Is e THE string argument?  `T: AsRef<str>` need not be idempotent, so the string is the result of ONE evaluation
+        of `<param>.as_ref()` (or of the one hand-over of the parameter to a callee that does it): the `let` that names it,
+        or the single inline use.  A second syntactic evaluation anywhere in the function is a different string: LOST."""
         e = strip(e)
-        if e[0] == "path" and len(names_of(e)) == 1 and self.sc.get(names_of(e)[0]) in ("str", "strlike", "static"): return True
+        if e[0] == "path" and len(names_of(e)) == 1:
+            k = self.sc.get(names_of(e)[0])
+            if k in ("str", "static"): return True
+            if k == "strlike": self.evaluates_as_ref(e); return True
+            return False
         if e[0] == "mcall" and e[3] == "as_ref" and not e[4]:
             z = strip(e[2])
-            return z[0] == "path" and len(names_of(z)) == 1 and self.sc.get(names_of(z)[0]) == "strlike"
+            if z[0] == "path" and len(names_of(z)) == 1 and self.sc.get(names_of(z)[0]) == "strlike":
+                self.evaluates_as_ref(e); return True
         return False
+
+    def evaluates_as_ref(self, node):
+        seen = self.env.setdefault("as_ref_nodes", {})
+        seen[id(node)] = node
+        if len(seen) > 1:
+            self.lost(node, "as_ref() evaluated more than once: `T: AsRef<str>` need not return the same string again")
 
     def is_static(self, e):
         e = strip(e)
@@ -519,6 +533,7 @@ def run(repo, out):
         parts = []
         for name, gen, params, ret, rk, kinds in METHODS:
             f = unique(fns, name, params, ret, "method")
+            env["as_ref_nodes"] = {}
             fnl = RFn(rk, known, env)
             ps = []
             for (p, _t), kd in zip([x for x in f[4] if x[0] != "self"], kinds):
